@@ -89,8 +89,24 @@ def resolve(classes, ref):
         if ref[0] == "cut":          # the same type over another enzyme (only the cutter is redefined)
             import asm
             return type("Variant", (base,), {"cutter": asm.enzyme(ref[2])})
+        if ref[0] == "char":
+            # a laboratory's family of part types under one kit type: asked through `Family.characterize(record)`;
+            # the candidates are its direct subclasses, in definition order
+            fam = type("Family", (base,), {})
+            fam._kids = [type("Kid%d" % i, (fam,), {"signature": (u_, d_)}) for i, (u_, d_) in enumerate(ref[2])]
+            return fam
         return type("Dyn" + base.__name__, (base,), {})
     return classes[ref]
+
+
+def char_answer(fam, word, topo):
+    try:
+        ent = fam.characterize(mkrec(word, topo))
+    except RuntimeError as e:
+        return ["char", "none", type(e).__name__]
+    except Exception as e:  # noqa
+        return ["exc", type(e).__name__]
+    return ["char", type(ent).__name__, str(ent.overhang_start()), str(ent.overhang_end())]
 
 
 def run_history(classes, hist, share=False):
@@ -106,7 +122,9 @@ def run_history(classes, hist, share=False):
         key = json.dumps(ref)
         if key not in made:
             made[key] = resolve(classes, ref)
-        if share:
+        if isinstance(ref, list) and ref[0] == "char":
+            out.append(char_answer(made[key], word, topo))
+        elif share:
             if (word, topo) not in recs:
                 recs[(word, topo)] = mkrec(word, topo)
             out.append(answer(made[key], word, topo, rec=recs[(word, topo)], keep=alive))
@@ -182,6 +200,8 @@ def check_case(ctx, case):
             def nm(x):
                 if isinstance(x, list) and x[0] in ("sig", "sigsame"):
                     return "part type 'Variant' {}/{} derived from {}".format(x[2], x[3], classes[x[1]].__name__)
+                if isinstance(x, list) and x[0] == "char":
+                    return "characterize() of a family of {} part types derived from {}".format(len(x[2]), classes[x[1]].__name__)
                 if isinstance(x, list) and x[0] == "cut":
                     return "type 'Variant' derived from {} with cutter {}".format(classes[x[1]].__name__, x[2])
                 return ("new subclass of " + classes[x[1]].__name__) if isinstance(x, list) else classes[x].__name__
@@ -192,6 +212,8 @@ def check_case(ctx, case):
     refs = [h[0] for h in hist]
     ctx.note("history-len={}".format(min(len(hist), 6)))
     ctx.case(case, nontrivial=len({json.dumps(r) for r in refs}) > 1)
+    if any(isinstance(r, list) and r[0] == "char" for r in refs):
+        return          # which candidate comes first is not a matter of the model's per-class cache
     # model: one class table per history (dynamic subclasses share their base's structure)
     table, idx = [], []
 
@@ -273,6 +295,30 @@ def run(ctx):
         inst = inst_of(classes, ref, 3, rng.getrandbits(32))
         ctx.guard(check_case, {"history": [[a, words[a]], [ref, gen.rot(inst + gen.rnd(rng, 5), rng.randrange(6))],
                                            [ref, words[a]]]})
+    # automatic typing within a family whose types overlap (wildcard signatures): the type found for a record is the
+    # first candidate that accepts it, whatever was characterised before
+    for _ in range(ctx.budget(40, 800)):
+        if not sigbases:
+            break
+        a = rng.choice(sigbases)
+        k = len(classes[a].signature[0])
+        up0, down1 = gen.rnd(rng, k), gen.rnd(rng, k)
+        upx = gen.rnd(rng, k)
+        if upx == up0:
+            continue
+        fam = ["char", a, [[up0, "N" * k], ["N" * k, down1]]]
+        try:
+            both = inst_of(classes, ["sig", a, up0, down1], rng.choice([2, 5]), rng.getrandbits(32))
+            second = inst_of(classes, ["sig", a, upx, down1], rng.choice([2, 5]), rng.getrandbits(32))
+        except Exception:  # noqa
+            continue
+        both = gen.rot(both + gen.rnd(rng, 6), rng.randrange(8))
+        second = gen.rot(second + gen.rnd(rng, 6), rng.randrange(8))
+        hist = [[fam, second], [fam, both]]
+        if rng.random() < 0.5:
+            hist.append([fam, gen.rnd(rng, 30)])            # nothing accepts it
+            hist.append([fam, both])
+        ctx.guard(check_case, {"history": hist})
     # an ancestor is asked, then a brand-new subclass of a descendant that was never asked itself; and a type is
     # asked, then a variant of it that redefines only the cutter, about a record of the variant's own structure
     strict = [(a, b) for a, b in related if classes[b] is not classes[a] and issubclass(classes[b], classes[a])]
